@@ -451,3 +451,21 @@ package main
 //@   ensures !has(req.Header, "Authorization") ==> result == ""
 //@   ensures has(req.Header, "Authorization") && m != nil ==> result == m[2]
 //@   ensures has(req.Header, "Authorization") && m == nil ==> result == ""
+
+// getWithPipe: the reader goroutine closes the pipe with whatever ReadBlock
+// returned for this locator (so a failed or short volume read reaches the
+// consumer as an error, never as a clean end of data); the consumer fills the
+// caller's buffer; when the context ends first nothing is reported as read.
+//@ iface BlockReader.ReadBlock
+//@   modifies all
+//@ func getWithPipe$1 property C01,C02
+//@   ghost rerr error = nil
+//@   calls BlockReader.ReadBlock#1: requires $recv == br && $1 == loc && $2 == iface(pipew)
+//@   calls BlockReader.ReadBlock#1: set rerr = $r
+//@   calls PipeWriter.CloseWithError#1: requires $0 == rerr
+//@ func getWithPipe$2 property C01,C02
+//@   calls io.ReadFull#1: requires $0 == iface(piper) && $1 == buf
+//@ func getWithPipe property C01,C02
+//@   ghost sel int = 0 - 1
+//@   at select#1: set sel = $index
+//@   ensures sel == 0 ==> result0 == 0
